@@ -21,7 +21,7 @@ META = {
                    "sequence is covered. Obligations P1-P4, P7 and M together imply that parse_module returns "
                    "for every input whose nesting depth is bounded; P5: a nesting guard found by role cuts every recursive "
                    "cycle, the look-aheads made on the way back out stay below the fuel, and the wraps of postfix / binary operators are charged to a "
-                   "budget that never falls within an activation (tree depth <= limit x nodes per level).",
+                   "budget that never falls within an activation (tree depth <= limit x nodes per level). P8 = C14 U12 (engine U). P5a also: the wrap budget is asked (and charged) only behind a decision on the current token.",
     "not_decided": "panics inside logos/rowan.",
     "trusted_base": ["rustc MIR construction, callee resolution, const evaluation",
                      "logos emits only kinds that carry #[token]/#[regex]/#[error]",
